@@ -3,7 +3,7 @@
 set -e
 here=$(cd "$(dirname "$0")" && pwd)
 cd "$here"
-mkdir -p build evidence replays
+mkdir -p build evidence replays lean/XMT/Audit
 export GOFLAGS=-mod=mod GOPROXY=off GOSUMDB=off GOTOOLCHAIN=local CGO_ENABLED=0
 python3 lib/gen.py
 python3 - <<'PY'
